@@ -22,6 +22,7 @@ import (
 	"github.com/go-kit/log/level"
 	"github.com/prometheus/client_golang/prometheus"
 	"github.com/prometheus/client_golang/prometheus/promauto"
+	"github.com/prometheus/prometheus/model/labels"
 	"github.com/prometheus/prometheus/promql"
 	"github.com/prometheus/prometheus/promql/parser"
 	"github.com/prometheus/prometheus/storage"
@@ -437,7 +438,7 @@ loop:
 			resultMatrix = append(resultMatrix, s)
 		}
 		sort.Sort(resultMatrix)
-		ret.Value = resultMatrix
+		ret.Value = mergeSeriesWithSameLabels(resultMatrix)
 		return ret
 	}
 
@@ -475,6 +476,25 @@ loop:
 
 	ret.Value = result
 	return ret
+}
+
+// mergeSeriesWithSameLabels merges adjacent series of a sorted matrix that have
+// the same label set into one series. Operators that remove the metric name
+// can emit several series with the same labels; they never have samples at the
+// same step (that fails the query), so their points interleave into one series,
+// which is how the Prometheus engine returns them.
+func mergeSeriesWithSameLabels(m promql.Matrix) promql.Matrix {
+	out := m[:0]
+	for _, s := range m {
+		if n := len(out); n > 0 && labels.Equal(out[n-1].Metric, s.Metric) {
+			out[n-1].Points = append(out[n-1].Points, s.Points...)
+			points := out[n-1].Points
+			sort.Slice(points, func(i, j int) bool { return points[i].T < points[j].T })
+			continue
+		}
+		out = append(out, s)
+	}
+	return out
 }
 
 func newErrResult(r *promql.Result, err error) *promql.Result {
